@@ -30,25 +30,17 @@ MCSamples == { [num |-> -1, den |-> 1], [num |-> 0, den |-> 1], [num |-> 1, den 
 Q == Readings(ref, now, conc)
 Hi == [num |-> 3, den |-> 2]
 AllBBRWeaker ==
-    LET q == Q IN
+    \A q \in {Q} :   \* (a bound variable is evaluated once; a LET definition would be re-evaluated at every use)
     \A r \in Universe, l \in MCSamples :
         ViolatedQ(r, q, l, l) => ViolatedQ([r EXCEPT !.bbr = FALSE], q, l, l)
 AllUnsampledNeverBlocks ==
-    LET q == Q IN
+    \A q \in {Q} :   \* (a bound variable is evaluated once; a LET definition would be re-evaluated at every use)
     \A r \in Universe, x \in MCSamples :
         /\ r.mt = "load" => ~ViolatedQ(r, q, NoSample, x)
         /\ r.mt = "cpu"  => ~ViolatedQ(r, q, x, NoSample)
-\* outbound is never gated, whatever is loaded; inbound is gated exactly by the existential over the list
-AllGate ==
-    LET q == Q IN
-    \A r1 \in Universe, r2 \in Universe, l \in {NoSample, Hi} :
-        LET rl == <<r1, r2>> IN
-        /\ ~MustBlockQ("out", rl, q, l, l)
-        /\ MustBlockQ("in", rl, q, l, l) <=> (ViolatedQ(r1, q, l, l) \/ ViolatedQ(r2, q, l, l))
-        /\ ~MustBlockQ("in", << >>, q, l, l)
 \* a trigger that is reached stays reached when the trigger is lowered (monotone in the trigger)
 AllMonotoneInTrigger ==
-    LET q == Q IN
+    \A q \in {Q} :   \* (a bound variable is evaluated once; a LET definition would be re-evaluated at every use)
     \A r \in Universe, l \in MCSamples :
         (ViolatedQ(r, q, l, l) /\ r.num > 0) => ViolatedQ([r EXCEPT !.num = 0], q, l, l)
 
